@@ -35,6 +35,7 @@ fn dispatch(cmd: &str, rest: &[String]) {
 		"action-replay" => action::replay(rest),
 		"action-probe" => action::probe(rest),
 		"api-replay" => api::replay(rest),
+		"doc-record" => api::doc_record(rest),
 		"params-replay" => params::replay(rest),
 		"candle-replay" => candle::replay(rest),
 		"candle-record" => candle::record(rest),
